@@ -179,7 +179,48 @@ def run(ck):
     st = ck.cov["streams"].setdefault("graphs", {"evaluations": 0, "distinct_nontrivial": 0})
     st["model_disagreements"] = ndis
     ck.count("graphs", len(cases), nontriv, sample={"graph": cases[len(cases) // 3][1], "impl": a[len(cases) // 3][:300], "model": b[len(cases) // 3]})
+    spellings(ck)
     return ck.finish(extra_cov={"exhaustive": True}, **FINISH)
+
+
+def spellings(ck):
+    """how a path is spelled does not change where it is looked for: the including file's directory first, then INCLUDE_DIR -
+    also for `./x.td`, `../d/x.td`, `d/../x.td`, a trailing slash on INCLUDE_DIR and an absolute path"""
+    use = "def d : X;\n"
+    cases = [
+        ("dot-only-in-include-dir", {"/proj/main.td": 'include "./x.td"\n' + use, "/inc/./x.td": "class X;\n"}, "/inc", True),
+        ("dotdot-only-in-include-dir", {"/proj/main.td": 'include "../common/x.td"\n' + use, "/inc/../common/x.td": "class X;\n"}, "/inc", True),
+        ("plain-only-in-include-dir", {"/proj/main.td": 'include "x.td"\n' + use, "/inc/x.td": "class X;\n"}, "/inc", True),
+        ("dot-next-to-the-file", {"/proj/main.td": 'include "./x.td"\n' + use, "/proj/./x.td": "class X;\n", "/inc/./x.td": "class Other;\n"}, "/inc", True),
+        ("dotdot-next-to-the-file", {"/proj/sub/main.td": 'include "../x.td"\n' + use, "/proj/sub/../x.td": "class X;\n"}, None, True),
+        ("through-a-directory-and-back", {"/proj/main.td": 'include "d/../x.td"\n' + use, "/proj/d/../x.td": "class X;\n"}, None, True),
+        ("subdirectory-in-include-dir", {"/proj/main.td": 'include "lib/x.td"\n' + use, "/inc/lib/x.td": 'include "./y.td"\nclass X : Y;\n', "/inc/lib/./y.td": "class Y;\n"}, "/inc", True),
+        ("nowhere", {"/proj/main.td": 'include "./x.td"\n' + use}, "/inc", False),
+    ]
+    lines = []
+    for name, files, inc, _ in cases:
+        root = sorted(p for p in files if p.endswith("main.td"))[0]
+        spec = {"files": files, "root": root, "queries": [["diagnostics"], ["document_link", root], ["goto", root, files[root].index(": X") + 2]]}
+        if inc:
+            spec["include_dir"] = inc
+        lines.append("ws " + json.dumps(spec))
+    outs = core.impl(lines, tag="sp16")
+    for (name, files, inc, resolves), o in zip(cases, outs):
+        case = {"files": files, "root": sorted(p for p in files if p.endswith("main.td"))[0], "include_dir": inc}
+        try:
+            ans = json.loads(o)
+        except Exception:
+            ck.fail(["C16", "spelling", name], "workspace with include spelling %r aborts: %s" % (name, o[:80]), case, o[:200], "answers")
+            continue
+        nf = [d for _, ds in ans[0] for d in ds if "x.td" in d[3]]
+        links = ans[1] or []
+        if resolves and (nf or len(links) != 1 or ans[2] is None):
+            ck.fail(["C16", "spelling", name], "an include that resolves (%s) gets %s" % (name, "a not-found diagnostic" if nf else ("no link" if len(links) != 1 else "no declarations")),
+                    case, json.dumps([nf, links, ans[2]])[:300], "one link, no not-found diagnostic, the class is found")
+        if not resolves and (not nf or links):
+            ck.fail(["C16", "spelling", name], "an include that resolves nowhere gets %s" % ("a link" if links else "no diagnostic"), case, json.dumps([nf, links])[:300],
+                    "a not-found diagnostic and no link")
+    ck.count("spellings", len(cases), {c[0] for c in cases}, sample={"case": cases[0][0], "files": cases[0][1]})
 
 
 def reach(res):
